@@ -80,6 +80,19 @@ def is_far(p):
     return And(knowable(p), secs(p) > 300)
 
 
+def is_boot(p):
+    """a boot event: its moment has `boot` set (to either truth value)"""
+    return Not(OB.is_none(MOMENT.get(EVENT.get(p, 'moment'), 'boot')))
+
+
+def booted_clauses(c, handled_event, pre=''):
+    """handled_event(t, p): event p of job t has been looked at so far"""
+    t, p = c.sk('bt', NODE), c.sk('bp', EVENT)
+    b0, b1 = c.old.g(BOOTED), c.cur.g(BOOTED)
+    return {pre + 'boot.fired-events-are-recorded': Implies(And(handled_event(t, p), is_due(p), is_boot(p)), b1[p]),
+            pre + 'boot.only-fired-boot-events-are-recorded': Implies(b1[p], Or(b0[p], And(is_boot(p), is_due(p))))}
+
+
 def considered(c, t):
     st = c.old.f('Node.status', t)
     return And(c.old.g(PER)[t], st != STATE.const('running'), st != STATE.const('waiting'))
@@ -134,7 +147,8 @@ class defer(ContractBase):
                 pre + 'queue.due-with-targets-is-queued': Implies(And(hit, todo(c.cur, n) != TGTS.empty()), que(c.cur)[n]),
                 pre + 'queue.only-due-with-targets-enter': Implies(And(que(c.cur)[n], Not(que(c.old)[n])), And(hit, todo(c.cur, n) != TGTS.empty())),
                 pre + 'status.others': Implies(Not(handled(n)), c.cur.f('Node.status', n) == c.old.f('Node.status', n)),
-                pre + 'status.newly-queued-waits': Implies(And(que(c.cur)[n], Not(que(c.old)[n])), c.cur.f('Node.status', n) == STATE.const('waiting'))}
+                pre + 'status.newly-queued-waits': Implies(And(que(c.cur)[n], Not(que(c.old)[n])), c.cur.f('Node.status', n) == STATE.const('waiting')),
+                **booted_clauses(c, lambda t, p: And(handled(t), period(c, t)[p]), pre)}
 
     def ensures(c):
         paused = c.old.g('dawgie.pl.schedule.pipeline_paused')
@@ -172,6 +186,7 @@ class defer(ContractBase):
                 'queue.only-due-with-targets-enter': Implies(And(que(c.cur)[n], Not(que(c.old)[n])), And(hit, todo(c.cur, n) != TGTS.empty())),
                 'status.others': Implies(And(Not(And(considered(c, n), outer[n])), n != t), c.cur.f('Node.status', n) == c.old.f('Node.status', n)),
                 'status.newly-queued-waits': Implies(And(que(c.cur)[n], Not(que(c.old)[n])), c.cur.f('Node.status', n) == STATE.const('waiting')),
+                **booted_clauses(c, lambda tt, p: Or(And(considered(c, tt), outer[tt], tt != t, period(c, tt)[p]), And(tt == t, c.done[p]))),
                 'delays': (Bag(REAL).empty() != c.loc('delay')) == Or(some_far(c, outer), far_so_far),
                 'timers': c.cur.g('ghost.timers') == 0}
     loops = {'for t in filter(': Loop(inv=_inv_jobs, modifies=['Node.status', 'Node.todo', 'Node.event', QUE, BOOTED]),
